@@ -173,6 +173,55 @@ Theorem recv_packet_no_loss_buffered_read_until :
 Proof. exact recv_packet_no_loss_buffered_read_until_proof. Qed.
 Print Assumptions recv_packet_no_loss_buffered_read_until.
 
+(* nothing stays stuck in the consumer: a complete frame among the bytes the transport has already returned comes out of
+   the very next recv_packet() / receiver.next() call, however many earlier calls were cancelled (generic form) *)
+Theorem pending_event_is_delivered :
+  forall (P C : Type) (S : smachine P C) (into latching : bool) (spec : bytes -> list (nres P)) (G : bytes -> Prop)
+         (R : C -> bytes -> nat -> Prop) (D : C -> bytes -> Prop),
+    consumer_ok_rel (to_machine S) spec G R D ->
+    (forall c d c1 room, D c d -> sroom S c = Some (c1, room) -> D c1 d) ->
+    forall (c0 : C) (ls : list elabel),
+      R c0 [] 0 ->
+      let es := erun S into latching (einit c0) ls in
+      G (delivered (sk es)) ->
+      einrecv es = false ->
+      forall r, nth_error (spec (returned (sk es))) (length (events es)) = Some r ->
+        events (estep S into latching es ERecvPacket) = events es ++ [r].
+Proof. exact (@pending_event_is_delivered_proof). Qed.
+Print Assumptions pending_event_is_delivered.
+
+(* The server request receivers (no EOF latch).  A request handler's `yield timeout` is backend.timeout(timeout) around
+   receiver.next(): a cancellation request of the LTS, at any moment.  Closed instances: whatever was cancelled (timed
+   out), the requests handed to the handler are a prefix of the frame-by-frame decoding of the delivered stream, and a
+   complete request already returned by the transport is handed out by the very next next() call. *)
+Theorem request_receiver_timeout_loses_no_request :
+  forall (P : Type) (sep : bytes) (limit : nat) (keep_end : bool) (dec : decoder P) (bufsize : nat),
+    sep <> [] -> 0 < bufsize ->
+    forall ls,
+      let F := ru_framer sep limit keep_end dec in
+      let es := erun (copy_smachine F bufsize) false false (einit (cinit F)) ls in
+      safe sep limit (delivered (sk es)) ->
+      (exists rest, fst (spec_events sep keep_end dec (delivered (sk es))) = events es ++ rest) /\
+      (einrecv es = false ->
+       forall r, nth_error (fst (spec_events sep keep_end dec (returned (sk es)))) (length (events es)) = Some r ->
+         events (estep (copy_smachine F bufsize) false false es ERecvPacket) = events es ++ [r]).
+Proof. exact request_receiver_no_loss_proof. Qed.
+Print Assumptions request_receiver_timeout_loses_no_request.
+
+Theorem buffered_request_receiver_timeout_loses_no_request :
+  forall (P : Type) (sep : bytes) (limit : nat) (keep_end : bool) (dec : decoder P) (sizehint : nat),
+    sep <> [] -> length sep + 1 <= limit ->
+    forall ls,
+      let F := bru_framer sep limit keep_end dec in
+      let es := erun (buf_smachine F sizehint) true false (einit (bcinit F)) ls in
+      safe sep (limit - 1 - length sep) (delivered (sk es)) ->
+      (exists rest, fst (spec_events sep keep_end dec (delivered (sk es))) = events es ++ rest) /\
+      (einrecv es = false ->
+       forall r, nth_error (fst (spec_events sep keep_end dec (returned (sk es)))) (length (events es)) = Some r ->
+         events (estep (buf_smachine F sizehint) true false es ERecvPacket) = events es ++ [r]).
+Proof. exact buffered_request_receiver_no_loss_proof. Qed.
+Print Assumptions buffered_request_receiver_timeout_loses_no_request.
+
 (* non-vacuity: a recv_packet cancelled in the iteration of its read event, then the packet comes out *)
 Example endpoint_cancel_example :
   events (erun (copy_smachine (ru_framer [10%N] 8 false (fun b => Some b)) 4) false true
